@@ -53,6 +53,151 @@ fn violation(clause: &str, cause: &str, detail: &str, case: Json) -> Violation {
     }
 }
 
+// ------------------------------------------------------------------------------------------
+// sequences that also load rules through `add_rules_from_grl` (a batch of add_rule calls)
+// ------------------------------------------------------------------------------------------
+
+#[derive(Clone, Debug, PartialEq, Eq, Hash)]
+enum GStep {
+    Plain(Op),
+    /// `add_rules_from_grl` of these (name, salience index) rules in this order: they are added
+    /// one by one; the first duplicate name makes the call fail, what was added before it stays
+    Grl(Vec<(u8, u8)>),
+}
+
+impl GStep {
+    fn text(&self) -> String {
+        match self {
+            GStep::Plain(o) => o.text(),
+            GStep::Grl(b) => format!("grl:{}", b.iter().map(|(n, s)| format!("{}/{}", NAMES[*n as usize], SALS[*s as usize])).collect::<Vec<_>>().join(",")),
+        }
+    }
+    fn parse(t: &str) -> Option<GStep> {
+        if let Some(rest) = t.strip_prefix("grl:") {
+            let mut b = Vec::new();
+            for item in rest.split(',') {
+                let (n, s) = item.split_once('/')?;
+                b.push((NAMES.iter().position(|x| *x == n)? as u8, SALS.iter().position(|x| x.to_string() == s)? as u8));
+            }
+            return Some(GStep::Grl(b));
+        }
+        Op::parse(t).map(GStep::Plain)
+    }
+}
+
+fn grl_case_json(steps: &[GStep]) -> Json {
+    json!({"kind": "sequential-with-grl-loads", "steps": steps.iter().map(|s| s.text()).collect::<Vec<_>>()})
+}
+
+/// Every view is compared with the model after every step; the version must have grown when a
+/// step changed something and must not have moved when it changed nothing.
+fn run_grl_steps(steps: &[GStep]) -> Option<(String, String, String)> {
+    let kb = rust_rule_engine::KnowledgeBase::new("c15");
+    let mut m = Model::new(kb.version());
+    let mut reads = 0u64;
+    let mut tag = 0u32;
+    for (i, st) in steps.iter().enumerate() {
+        let v_before = kb.version();
+        let changed;
+        match st {
+            GStep::Plain(op) => {
+                tag += 1;
+                let res = exec(&kb, *op, tag);
+                if let Res::Panic(c) = &res {
+                    return Some(("operation-panicked".into(), c.clone(), format!("step {} {} panicked", i, st.text())));
+                }
+                let g0 = m.growth;
+                if !m.apply(*op, tag, &res) {
+                    return Some(("return-value".into(), "unexpected-result".into(), format!("step {} {} returned {}", i, st.text(), res.to_json())));
+                }
+                changed = m.growth > g0;
+            }
+            GStep::Grl(batch) => {
+                let mut text = String::new();
+                let mut tags = Vec::new();
+                for (n, s) in batch {
+                    // (the parser does not keep a description: rules loaded from text carry no tag)
+                    tags.push(u32::MAX);
+                    text.push_str(&format!("rule \"{}\" salience {} {{\n when x == 1\n then y = 1;\n}}\n", NAMES[*n as usize], SALS[*s as usize]));
+                }
+                let res = match std::panic::catch_unwind(std::panic::AssertUnwindSafe(|| kb.add_rules_from_grl(&text))) {
+                    Ok(r) => r,
+                    Err(_) => return Some(("operation-panicked".into(), "add_rules_from_grl".into(), format!("step {} {} panicked", i, st.text()))),
+                };
+                // the model: one add at a time, stop at the first duplicate
+                let g0 = m.growth;
+                let mut expect_ok = true;
+                for ((n, s), t) in batch.iter().zip(&tags) {
+                    if m.find(*n).is_some() {
+                        expect_ok = false;
+                        break;
+                    }
+                    m.apply(Op::Add { n: *n, s: *s }, *t, &Res::AddOk);
+                }
+                changed = m.growth > g0;
+                let got_ok = matches!(res, Ok(k) if k == batch.len());
+                if got_ok != expect_ok || (res.is_ok() && !got_ok) {
+                    return Some((
+                        if expect_ok { "return-value" } else { "duplicate-rejected-without-effect" }.into(),
+                        if expect_ok { "grl-load-of-new-names-failed" } else { "grl-load-with-duplicate-name-reported-ok" }.into(),
+                        format!("step {} {} returned {:?}", i, st.text(), res.map_err(|e| e.to_string())),
+                    ));
+                }
+            }
+        }
+        let v_after = kb.version();
+        if changed && v_after <= v_before {
+            return Some(("version".into(), "unchanged-after-successful-change".into(), format!("step {} {} changed the store but the version went {} -> {}", i, st.text(), v_before, v_after)));
+        }
+        if !changed && v_after < v_before {
+            return Some(("version".into(), "decreased".into(), format!("step {} {}: version went {} -> {}", i, st.text(), v_before, v_after)));
+        }
+        m.version_seen(v_after);
+        if let Some((clause, cause, detail)) = observe_all(&kb, &m, 4, &mut reads) {
+            let after_failed_load = matches!(st, GStep::Grl(_)) && !changed || matches!(st, GStep::Grl(b) if b.iter().any(|(n, _)| steps[..i].iter().any(|p| matches!(p, GStep::Plain(Op::Add { n: pn, .. }) if pn == n))));
+            let cause = if after_failed_load { format!("{}|after-a-grl-load-that-hit-a-duplicate", cause) } else { cause };
+            return Some((clause, cause, format!("after step {} {}: {}", i, st.text(), detail)));
+        }
+    }
+    None
+}
+
+fn gen_grl_steps(rng: &mut Rng) -> Vec<GStep> {
+    let len = 3 + rng.below(6);
+    let nn = 3 + rng.below(2);
+    (0..len)
+        .map(|_| {
+            let n = rng.below(nn) as u8;
+            match rng.below(100) {
+                0..=29 => GStep::Plain(Op::Add { n, s: pick_sal(rng) }),
+                30..=59 => {
+                    let k = 2 + rng.below(2);
+                    GStep::Grl((0..k).map(|_| (rng.below(nn) as u8, pick_sal(rng))).collect())
+                }
+                60..=79 => GStep::Plain(Op::Remove { n }),
+                80..=94 => GStep::Plain(Op::Enable { n, on: rng.bool() }),
+                _ => GStep::Plain(Op::Clear),
+            }
+        })
+        .collect()
+}
+
+fn check_grl_steps(steps: &[GStep], st: &mut Stats) {
+    st.eval();
+    st.count("seq_sequences_with_grl_batch_loads");
+    if steps.iter().filter(|s| matches!(s, GStep::Grl(_))).count() >= 1 && steps.len() >= 4 {
+        st.nontrivial(hash_of(&steps));
+    }
+    if let Some((clause, _, _)) = run_grl_steps(steps) {
+        st.count("seq_failing_sequences");
+        let mut fails = |ss: &[GStep]| matches!(run_grl_steps(ss), Some((c, _, _)) if c == clause);
+        let small = shrink_list(steps, &mut fails);
+        if let Some((cl, cause, detail)) = run_grl_steps(&small) {
+            st.violation(violation(&cl, &cause, &detail, grl_case_json(&small)));
+        }
+    }
+}
+
 fn seq_nontrivial(o: &SeqObs) -> bool {
     o.max_rules >= 2 && (o.rejected_duplicates + o.missing_name_ops > 0 || o.ok_changes > o.max_rules as u64)
 }
@@ -301,6 +446,15 @@ impl C15 {
                 }
             }
         }
+        // sequences that also load batches of rules from GRL text
+        let grl_per = cli.n(4_000, 150_000);
+        for _ in 0..grl_per {
+            if cli.expired() {
+                break;
+            }
+            let steps = gen_grl_steps(&mut rng);
+            check_grl_steps(&steps, st);
+        }
         false
     }
 
@@ -516,7 +670,7 @@ impl Check for C15 {
         "C15"
     }
     fn rule(&self) -> String {
-        "sequential, EXHAUSTIVE: every sequence of length 1..=5 (quick) / 1..=6 (thorough) over the 25 mutating operations {add 4 names x 3 saliences, remove x4, enable x4, disable x4, clear}: return value and version checked after every operation, every read view (get_rule for all 4 names, get_rules, get_rule_names, rule_count, get_rules_by_salience+get_rule_by_index, get_statistics, version) compared with the ordered-list+version model after the last one; sequential, SAMPLED (saliences also i32::MIN / i32::MAX, 1 add in 6): random sequences of length 6..=8 (1 in 8: 9..=16) over 2-4 names with every view compared after every operation; plus 'wide' random sequences of 30..=90 operations over 48 names (beyond the stated 4-name bound; long lists with many equal saliences), views compared after the last operation. A sequential case is non-trivial when at least 2 rules were stored at some point and it contains an operation other than a first-time add (rejected duplicate, missing-name operation, removal, enable/disable, clear); distinct by operation sequence (length>=5 exhaustive cases are counted, not hashed). Concurrent, SAMPLED: random programs of 3 threads x 4 operations (all ten operation kinds, 2-3 names, 0-2 set-up adds) on one Arc<KnowledgeBase> under seeded yields/sleeps at the library's schedule points and before every call; each recorded history (client-side call/return stamps from one atomic clock) is checked for linearizability (WGL search memoised on (linearised set, model state), step cap => inconclusive). A concurrent history is non-trivial when operations of different threads overlapped in real time and a worker-thread operation changed the store; distinct by recorded history. Thorough adds the same generator under Miri many-seeds (64 scheduler seeds x 20 histories) and a ThreadSanitizer build (8 processes x 5000 histories).".into()
+        "sequential, EXHAUSTIVE: every sequence of length 1..=5 (quick) / 1..=6 (thorough) over the 25 mutating operations {add 4 names x 3 saliences, remove x4, enable x4, disable x4, clear}: return value and version checked after every operation, every read view (get_rule for all 4 names, get_rules, get_rule_names, rule_count, get_rules_by_salience+get_rule_by_index, get_statistics, version) compared with the ordered-list+version model after the last one; sequential, SAMPLED (saliences also i32::MIN / i32::MAX, 1 add in 6): random sequences of length 6..=8 (1 in 8: 9..=16) over 2-4 names with every view compared after every operation; plus 'wide' random sequences of 30..=90 operations over 48 names (beyond the stated 4-name bound; long lists with many equal saliences), views compared after the last operation; plus random sequences of 3..=8 steps over 3-4 names in which a third of the steps load a batch of 2-3 rules through add_rules_from_grl (added one by one; the first duplicate fails the call and what was added before it stays), every view compared after every step. A sequential case is non-trivial when at least 2 rules were stored at some point and it contains an operation other than a first-time add (rejected duplicate, missing-name operation, removal, enable/disable, clear); distinct by operation sequence (length>=5 exhaustive cases are counted, not hashed). Concurrent, SAMPLED: random programs of 3 threads x 4 operations (all ten operation kinds, 2-3 names, 0-2 set-up adds) on one Arc<KnowledgeBase> under seeded yields/sleeps at the library's schedule points and before every call; each recorded history (client-side call/return stamps from one atomic clock) is checked for linearizability (WGL search memoised on (linearised set, model state), step cap => inconclusive). A concurrent history is non-trivial when operations of different threads overlapped in real time and a worker-thread operation changed the store; distinct by recorded history. Thorough adds the same generator under Miri many-seeds (64 scheduler seeds x 20 histories) and a ThreadSanitizer build (8 processes x 5000 histories).".into()
     }
     fn assumptions(&self) -> Vec<String> {
         vec![
@@ -580,6 +734,15 @@ impl Check for C15 {
                 match run_seq_names(&ops, true, n_names.clamp(4, 64)) {
                     (Some((cl, cause, detail)), _) => vec![violation(&cl, &cause, &detail, case.clone())],
                     (None, _) => vec![],
+                }
+            }
+            Some("sequential-with-grl-loads") => {
+                let Some(steps) = case["steps"].as_array().and_then(|a| a.iter().map(|x| GStep::parse(x.as_str()?)).collect::<Option<Vec<GStep>>>()) else {
+                    return bad("cannot decode steps");
+                };
+                match run_grl_steps(&steps) {
+                    Some((cl, cause, detail)) => vec![violation(&cl, &cause, &detail, case.clone())],
+                    None => vec![],
                 }
             }
             Some("concurrent") => {
